@@ -5,7 +5,7 @@ CONSTANTS
   PivotSet = {0, 1, 2, 3, 4, 5, 6, 7, 8, 9, 10, 11, 12, 13}
   NSet = {0, 1, 2, 3, 100}
   DegSet = {2, 3}
-  MaxH = 3
+  MaxH = 4
   Apis = {"wrap", "inner"}
   Depth = 40
 INVARIANTS Emit
